@@ -18,6 +18,18 @@ CHECKS = {
    technique="fault injection over recorded storage operations: generated workloads on a store whose logs are recorded through the public WithAppFactory seam; generated crash points x per-log survival of un-fsynced writes; crash images materialised through real appendables and checked against a ledger oracle",
    text="Workloads (1-4 concurrent committers, synced store, generated chunk/AHT/index thresholds, index flushes; and a replica-like scenario: committed + precommitted txs, discard, different txs under the same ids, partial commit allowance) are recorded operation by operation for every log. For generated crash points (biased to the neighbourhood of flush/fsync) and generated survival of flushed-but-not-fsynced writes per log (none/all/prefix/torn) the crash image is rebuilt and reopened: acked txs present and byte-identical, recovered history a gap-free chain made only of txs written under those ids, BlRoot equal to the reference Merkle root, dual proofs from acked states verify, index agrees with the recovered history, new commits chain on, clean restart stable.",
    note="Crash states explored are a subset of real ones: per-file prefix of writes already handed to the OS + torn last write; no intra-file reordering, no directory-entry loss; compaction disabled in workloads; second crash during recovery not yet explored. K18 (prealloc + torn commit-log entry) excluded by class."),
+ "C10": dict(level="exploration", design="DESIGN.md §2 C10",
+   technique="property-based testing (rapid): stateful model-based generation on a real on-disk tbtree vs a multi-version ordered-map model; generated reader specs on fixed deep trees; concurrent snapshot readers with schedule-agnostic oracle",
+   text="Generated sequences of Insert/BulkInsert (explicit/zero/mixed timestamps, repeated keys, same-ts re-insert), IncreaseTs, Flush/FlushWith(cleanup, synced), Sync, Compact, close/reopen, snapshots (incl. SnapshotMustIncludeTs), snapshot-local writes, point/bounded/history/prefix lookups and readers over seek/end/inclusive/prefix/direction/offset/history/time-window, with generated node sizes (from the required minimum), cache sizes, thresholds and chunk sizes; every result equals the model, a held snapshot keeps returning its frozen state after later inserts/flushes-with-cleanup/compactions, content is unchanged by flush and restart, compaction yields the state at the reported ts. Concurrent readers on held snapshots run while the writer proceeds.",
+   note="Trusted: the map model in checks/c10/model_test.go. Not generated (undocumented semantics): reader Offset combined with history/ReadBetween, GetWithPrefix exclusion key other than nil/first match, same-ts re-insert with a different value. Four repaired tbtree defects (K10a-d) are pinned as probes."),
+ "C15": dict(level="exploration", design="DESIGN.md §2 C15",
+   technique="property-based testing (rapid) of round-trip and order-preservation laws with boundary-biased generators; native Go fuzzing of the byte-level codecs in the thorough tier",
+   text="Round-trips (decode(encode(x)) = x, consumed length, canonical re-encoding) for SQL value and key codecs of all types, JSON values, row values over protobuf, TxHeader v0/v1, TxMetadata, KVMetadata, ExportTx -> parser -> bytes and ExportTx -> ReplicateTx on a twin store (same header/Alh, proofs convert and verify), documents through the document engine; order laws: sign(bytes.Compare(key(a),key(b))) = SQL comparison for every type with NULL first, equal values encode identically, composite keys order lexicographically; rows written through the engine come back once and in SQL order under every index.",
+   note="Trusted: the engine's own TypedValue.Compare cross-checked with an independent comparator. Known findings excluded by class and counted: K6 (-0.0 vs 0.0 keys; pinned by the repository's own test, not repairable without editing it), K7 (TIMESTAMP keys overflow outside 1677..2262). K5c (nullable codec '' = NULL) repaired and pinned."),
+ "C17": dict(level="exploration", design="DESIGN.md §2 C17",
+   technique="property-based testing (rapid): stateful model-based generation on real singleapp/multiapp files vs a byte-slice model; exhaustive enumeration of short operation sequences on tiny configurations; concurrent readers",
+   text="Generated sequences of append/read/set-offset/flush/sync/discard/switch-read-only/close-reopen/copy over generated chunk sizes (4-512 B), write buffers (1-64 B), all retryable-sync x auto-sync modes, preallocation, max-open-files 1-3, every compression format (entry-addressed model), with concurrent readers during appends; after every step offsets, sizes, bytes, EOF semantics, documented errors and metadata equal the model; all sequences of <= L operations over 12 operations are enumerated on 5 tiny configurations.",
+   note="Trusted: the byte-slice model. Known findings excluded by class and counted: K3 (rewind not persisted: stale size/bytes after reopen), K17m (metadata > ~3.9 KB lost), K17c (compressed multiapp offset below size), K17r/K17x (multiapp read races; stress probes). F17 (stale read after rewind) repaired and pinned. Injected I/O errors inside singleapp are not reachable without a source hook."),
 }
 
 NOT_YET = "check not built yet in this session (work in progress; see DESIGN.md §2 for the planned harness)"
